@@ -41,8 +41,11 @@ def run(ck):
         else:
             vals = [rng.randint(0, 1000) for _ in range(n)]
         groups.append({"vals": vals, "k": 2, "calls": calls_for(n), "watchdog": 20})
+    from .. import gen
+    for g in gen.dominant_family(rng, 60 if q else 1500):     # a dominant item of about 2e9: differences that agree to a relative 1e-9
+        groups.append({"vals": g["vals"], "k": 2, "calls": calls_for(len(g["vals"])), "watchdog": 20})
     ck.rule = ("TLC enumerates every bag of <=%d values in 0..5; cbldm executed with the default (unbounded) setting and every cardinality bound in "
-               "{1,2,3,n-1,n,n+3}; plus all-ones, near-all-equal and random families n<=12; optimum under the bound recomputed in TLA+ (OptBalanced over "
+               "{1,2,3,n-1,n,n+3}; plus all-ones, near-all-equal, random (n<=12) and dominant-item (one item of 2e9) families; optimum under the bound recomputed in TLA+ (OptBalanced over "
                "all subsets). non-trivial = distinct bag with >=2 items") % (7 if q else 9)
     traces = core.pmap(drive.run_part_group, groups)
     for t in traces:
